@@ -253,6 +253,7 @@ func c06GenScript(ctx *core.Ctx, r *hx.Rand, style int) {
 	run := newRunner(c0)
 	var obs []Obs
 	now := c0
+	now0 := c0 // the clock before the step being issued
 	nextID := int64(1)
 	live := map[int64]liveItem{} // by key, the client's view (ignores executions)
 	maxDue := c0
@@ -262,6 +263,16 @@ func c06GenScript(ctx *core.Ctx, r *hx.Rand, style int) {
 	var lastDl int64
 
 	do := func(st Step) bool {
+		if (st.O == "adv" || st.O == "race") && lastPos == 2 {
+			// The loop is held between Now() and NewTimer() with its duration already computed: a
+			// clock move here delays the timer by the jump ("drift"). Keep due + drift below the
+			// last instant there is, where the virtual clock and a real one stop agreeing.
+			if lim := satAdd(now0, maxNs-maxDue); st.T > lim {
+				st.T = lim
+				now = lim
+			}
+		}
+		now0 = st.nowAfter(now0)
 		in.Steps = append(in.Steps, st)
 		o, err := run.Do(&in.Steps[len(in.Steps)-1])
 		if err == errLockStuck {
